@@ -71,8 +71,8 @@ theorem sinkBeforeContext_llv_ok (cfg : Config) (σ : Script) (buf : Bytes) (st 
     | true => simp at h
     | false =>
       dsimp only at h ⊢
-      rw [emit_eq] at h ⊢
-      cases hσ : σ (countLines cfg buf s1 r.s).events.length <;> simp [hσ, respRes] at h ⊢
+      rw [emit_def] at h ⊢
+      cases hσ : σ (countLines cfg buf s1 r.s).events.length <;> simp [hσ, respOf] at h ⊢
 
 theorem sinkAfterContext_llv_ok (cfg : Config) (σ : Script) (buf : Bytes) (st : Core) (r : Span)
     (h : (sinkAfterContext cfg σ buf st r).2 = .ok true) :
@@ -87,8 +87,8 @@ theorem sinkAfterContext_llv_ok (cfg : Config) (σ : Script) (buf : Bytes) (st :
     | true => simp at h
     | false =>
       dsimp only at h ⊢
-      rw [emit_eq] at h ⊢
-      cases hσ : σ (countLines cfg buf s1 r.s).events.length <;> simp [hσ, respRes] at h ⊢
+      rw [emit_def] at h ⊢
+      cases hσ : σ (countLines cfg buf s1 r.s).events.length <;> simp [hσ, respOf] at h ⊢
 
 theorem sinkOtherContext_llv_ok (cfg : Config) (σ : Script) (buf : Bytes) (st : Core) (r : Span)
     (h : (sinkOtherContext cfg σ buf st r).2 = .ok true) :
@@ -103,8 +103,8 @@ theorem sinkOtherContext_llv_ok (cfg : Config) (σ : Script) (buf : Bytes) (st :
     | true => simp at h
     | false =>
       dsimp only at h ⊢
-      rw [emit_eq] at h ⊢
-      cases hσ : σ (countLines cfg buf s1 r.s).events.length <;> simp [hσ, respRes] at h ⊢
+      rw [emit_def] at h ⊢
+      cases hσ : σ (countLines cfg buf s1 r.s).events.length <;> simp [hσ, respOf] at h ⊢
 
 theorem sinkMatched_llv_ok (cfg : Config) (σ : Script) (buf : Bytes) (st : Core) (r : Span)
     (h : (sinkMatched cfg σ buf st r).2 = .ok true) :
@@ -129,8 +129,8 @@ theorem sinkMatched_llv_ok (cfg : Config) (σ : Script) (buf : Bytes) (st : Core
         | false => simp at h
         | true =>
           dsimp only at h ⊢
-          rw [emit_eq] at h ⊢
-          cases hσ : σ (countLines cfg buf s2 r.s).events.length <;> simp [hσ, respRes] at h ⊢
+          rw [emit_def] at h ⊢
+          cases hσ : σ (countLines cfg buf s2 r.s).events.length <;> simp [hσ, respOf] at h ⊢
 
 theorem spansFrom_shift (o d : Nat) (ls : List Bytes) :
     spansFrom (o + d) ls = (spansFrom o ls).map (fun sp => ⟨sp.s + d, sp.e + d⟩) := by
@@ -142,7 +142,7 @@ theorem spansFrom_shift (o d : Nat) (ls : List Bytes) :
 
 /-- the loop of `before_context_by_line` on both sides, over the lines `ls` starting at `o`; the gap
 test of the first line is the caller's business, afterwards the two sides are tight -/
-theorem beforeLoop_sim {cfg : Config} {B pre w post : Bytes} (W : Win B pre w post) (hbin : cfg.binary = .none)
+theorem beforeLoop_sim {cfg : Config} {B pre w post : Bytes} (W : WinOf B pre w post) (hbin : cfg.binary = .none)
     (σ : Script) (ls : List Bytes) :
     ∀ (o : Nat) (s1 s2 : Core), ESim cfg B w pre.length s1 s2 → s2.lastLineVisited ≤ o →
       o + ls.flatten.length ≤ w.length →
@@ -162,7 +162,7 @@ theorem beforeLoop_sim {cfg : Config} {B pre w post : Bytes} (W : Win B pre w po
     intro o s1 s2 E ho hw hgap0
     simp only [spansFrom, beforeLoop]
     simp only [List.flatten_cons, List.length_append] at hw ⊢
-    have hb := sinkBreakContext_sim σ E o (hgap0 (by simp))
+    have hb := sinkBreakContext_sim σ E o (Or.inr (hgap0 (by simp)))
     have hl2 := sinkBreakContext_llv cfg σ s2 o
     generalize sinkBreakContext cfg σ s1 (o + pre.length) = g1 at hb ⊢
     generalize sinkBreakContext cfg σ s2 o = g2 at hb hl2 ⊢
@@ -229,11 +229,12 @@ theorem stepLines_region (t : Nat) (buf : Bytes) (a b : Nat) (hab : a ≤ b) (hb
   rw [hl] at this
   exact this
 
-theorem beforeContextByLine_sim {cfg : Config} {B pre w post : Bytes} (W : Win B pre w post) (hbin : cfg.binary = .none)
+theorem beforeContextByLine_sim {cfg : Config} {B pre w post : Bytes} (W : WinOf B pre w post) (hbin : cfg.binary = .none)
     (σ : Script) {s1 s2 : Core} (E : ESim cfg B w pre.length s1 s2) (upto : Nat)
     (hu : s2.lastLineVisited ≤ upto) (huw : upto ≤ w.length)
     (X : s1.lastLineVisited = s2.lastLineVisited + pre.length ∨
-      ∃ Z, Far cfg w s2.lastLineVisited upto Z ∧ Far cfg B s1.lastLineVisited (upto + pre.length) Z) :
+      (∃ Z, Far cfg w s2.lastLineVisited upto Z ∧ Far cfg B s1.lastLineVisited (upto + pre.length) Z) ∨
+      cfg.maxContext = 0) :
     StepSim cfg B w pre.length (beforeContextByLine cfg σ B s1 (upto + pre.length))
         (beforeContextByLine cfg σ w s2 upto) ∧
       ((beforeContextByLine cfg σ w s2 upto).2 = .ok true →
@@ -323,7 +324,15 @@ theorem beforeContextByLine_sim {cfg : Config} {B pre w post : Bytes} (W : Win B
           rw [e1, e2]
           simp only [splitLines, spansFrom, beforeLoop]
           exact hT
-    | inr hL =>
+    | inr hL0 =>
+      have hbc1' : 1 ≤ cfg.beforeContext := by
+        cases hb0 : cfg.beforeContext with
+        | zero => simp [hb0] at hbc
+        | succ n => omega
+      have hL : ∃ Z, Far cfg w s2.lastLineVisited upto Z ∧ Far cfg B s1.lastLineVisited (upto + pre.length) Z := by
+        cases hL0 with
+        | inl h => exact h
+        | inr h0 => unfold Config.maxContext at h0; omega
       obtain ⟨Z, F2, F1⟩ := hL
       have hbc1 : 1 ≤ cfg.beforeContext := by
         cases hb0 : cfg.beforeContext with
@@ -373,31 +382,31 @@ theorem sinkBreakContext_pos (cfg : Config) (σ : Script) (st : Core) (o : Nat) 
   dsimp only
   split
   · rfl
-  · rw [emit_eq]
+  · rw [emit_def]
 
 theorem sinkBeforeContext_pos {cfg : Config} (hbin : cfg.binary = .none) (σ : Script) (buf : Bytes) (st : Core) (r : Span) :
     (sinkBeforeContext cfg σ buf st r).1.pos = st.pos := by
   unfold sinkBeforeContext
   rw [binaryGuard_none' hbin]
   dsimp only
-  rw [emit_eq]
-  cases σ (countLines cfg buf st r.s).events.length <;> simp [respRes, countLines_pos]
+  rw [emit_def]
+  cases σ (countLines cfg buf st r.s).events.length <;> simp [respOf, countLines_pos]
 
 theorem sinkAfterContext_pos {cfg : Config} (hbin : cfg.binary = .none) (σ : Script) (buf : Bytes) (st : Core) (r : Span) :
     (sinkAfterContext cfg σ buf st r).1.pos = st.pos := by
   unfold sinkAfterContext
   rw [binaryGuard_none' hbin]
   dsimp only
-  rw [emit_eq]
-  cases σ (countLines cfg buf st r.s).events.length <;> simp [respRes, countLines_pos]
+  rw [emit_def]
+  cases σ (countLines cfg buf st r.s).events.length <;> simp [respOf, countLines_pos]
 
 theorem sinkOtherContext_pos {cfg : Config} (hbin : cfg.binary = .none) (σ : Script) (buf : Bytes) (st : Core) (r : Span) :
     (sinkOtherContext cfg σ buf st r).1.pos = st.pos := by
   unfold sinkOtherContext
   rw [binaryGuard_none' hbin]
   dsimp only
-  rw [emit_eq]
-  cases σ (countLines cfg buf st r.s).events.length <;> simp [respRes, countLines_pos]
+  rw [emit_def]
+  cases σ (countLines cfg buf st r.s).events.length <;> simp [respOf, countLines_pos]
 
 theorem sinkMatched_pos {cfg : Config} (hbin : cfg.binary = .none) (σ : Script) (buf : Bytes) (st : Core) (r : Span) :
     (sinkMatched cfg σ buf st r).1.pos = st.pos := by
@@ -414,8 +423,8 @@ theorem sinkMatched_pos {cfg : Config} (hbin : cfg.binary = .none) (σ : Script)
     | false => exact hp
     | true =>
       dsimp only at hp ⊢
-      rw [emit_eq]
-      cases σ (countLines cfg buf s2 r.s).events.length <;> simp [respRes, countLines_pos, hp]
+      rw [emit_def]
+      cases σ (countLines cfg buf s2 r.s).events.length <;> simp [respOf, countLines_pos, hp]
 
 theorem beforeLoop_pos {cfg : Config} (hbin : cfg.binary = .none) (σ : Script) (buf : Bytes) (ls : List Span) :
     ∀ st, (beforeLoop cfg σ buf ls st).1.pos = st.pos := by
